@@ -582,7 +582,7 @@ Section SparseInv.
   Lemma step_inv s l s' : SInv s -> step idx nullid store s l = Some s' -> SInv s' \/ Collision H.
   Proof.
     intros Hinv E.
-    destruct l as [k|k rq|m]; cbn [step] in E.
+    destruct l as [k|k rq|m|m]; cbn [step] in E.
     - destruct (s_crashed s); [discriminate|]. exact (tstep_inv s k s' Hinv E).
     - destruct (s_crashed s || negb (valid_request idx rq)) eqn:Ev; [discriminate|].
       apply orb_false_iff in Ev. destruct Ev as [_ Ev]. apply negb_false_iff in Ev.
@@ -595,6 +595,7 @@ Section SparseInv.
         split; [intro E0; apply app_eq_nil in E0; destruct E0 as [_ E0]; discriminate|]. split; [exact B|]. split; [exact C|].
         destruct (queue th) as [|rq0 q0]; [contradiction|exact D].
       + apply Forall_app. split; [exact It|]. constructor; [|constructor]. apply idle_ok. constructor; [exact Ev|constructor].
+    - inversion E; subst s'. apply restart_inv. exact Hinv.
     - inversion E; subst s'. apply restart_inv. exact Hinv.
   Qed.
 End SparseInv.
@@ -710,10 +711,12 @@ Section NoPanic.
 
   Lemma step_no_panic s l s' : s_crashed s = false -> step idx nullid store s l = Some s' -> s_crashed s' = false.
   Proof.
-    intros Hc E. destruct l as [k|k rq|m]; cbn [step] in E.
+    intros Hc E. destruct l as [k|k rq|m|m]; cbn [step] in E.
     - rewrite Hc in E. exact (tstep_no_panic s k s' Hc E).
     - destruct (s_crashed s || negb (valid_request idx rq)); [discriminate|].
       destruct (nth_error (s_threads s) k); inversion E; subst s'; exact Hc.
+    - inversion E; subst s'. unfold restart.
+      match goal with |- context [if ?c then _ else _] => destruct c end; reflexivity.
     - inversion E; subst s'. unfold restart.
       match goal with |- context [if ?c then _ else _] => destruct c end; reflexivity.
   Qed.
@@ -860,9 +863,24 @@ Section Retry.
         * apply set_nth_Forall; [exact Rt|exact I].
   Qed.
 
+  Lemma rrestart s m : RInv s -> RInv (restart idx s m).
+  Proof.
+    intros [Rd Rs Rt Rl]. unfold restart.
+    match goal with |- context [if ?c then _ else _] => destruct c eqn:Ec end.
+    - constructor; cbn; auto.
+      destruct (s_saved s) as [b|]; [|apply andb_true_iff in Ec; destruct Ec; discriminate].
+      intros i Hi. exact (Rs b eq_refl i Hi).
+    - constructor; cbn; auto.
+      + intros i Hi. rewrite nth_repeat_false in Hi. discriminate.
+      + intros b Hb i Hi. inversion Hb; subst b. rewrite nth_repeat_false in Hi. discriminate.
+      + destruct (s_saved s) as [b|]; [|constructor].
+        destruct (m_preload m && m_state m && state_matches idx b); [|constructor].
+        apply Forall_forall. intros th Hin. apply in_map_iff in Hin. destruct Hin as [i [<- _]]. exact I.
+  Qed.
+
   Lemma rstep s l s' : RInv s -> step idx nullid store s l = Some s' -> RInv s'.
   Proof.
-    intros Hinv E. destruct l as [k|k rq|m]; cbn [step] in E.
+    intros Hinv E. destruct l as [k|k rq|m|m]; cbn [step] in E.
     - destruct (s_crashed s); [discriminate|]. exact (rtstep s k s' Hinv E).
     - destruct (s_crashed s || negb (valid_request idx rq)); [discriminate|].
       destruct Hinv as [Rd Rs Rt Rl].
@@ -873,17 +891,8 @@ Section Retry.
         split; [intro E0; apply app_eq_nil in E0; destruct E0 as [_ E0]; discriminate|]. split; [exact A|].
         destruct (queue th) as [|rq0 q0]; [contradiction|exact B].
       + apply Forall_app. split; [exact Rt|]. constructor; [exact I|constructor].
-    - inversion E; subst s'. destruct Hinv as [Rd Rs Rt Rl]. unfold restart.
-      match goal with |- context [if ?c then _ else _] => destruct c eqn:Ec end.
-      + constructor; cbn; auto.
-        destruct (s_saved s) as [b|]; [|apply andb_true_iff in Ec; destruct Ec; discriminate].
-        intros i Hi. exact (Rs b eq_refl i Hi).
-      + constructor; cbn; auto.
-        * intros i Hi. rewrite nth_repeat_false in Hi. discriminate.
-        * intros b Hb i Hi. inversion Hb; subst b. rewrite nth_repeat_false in Hi. discriminate.
-        * destruct (s_saved s) as [b|]; [|constructor].
-          destruct (m_preload m && m_state m && state_matches idx b); [|constructor].
-          apply Forall_forall. intros th Hin. apply in_map_iff in Hin. destruct Hin as [i [<- _]]. exact I.
+    - inversion E; subst s'. apply rrestart. exact Hinv.
+    - inversion E; subst s'. apply rrestart. exact Hinv.
   Qed.
 End Retry.
 
